@@ -34,7 +34,7 @@ impl Property for C03 {
         vec!["reference semantics as in C01; the harness stops at the first Floundered item (a floundered table repeats it by construction)".into(), "completeness is only judged inside the bounded Herbrand universe (depth 2)".into()]
     }
     fn cases_per_shard(&self, tier: Tier) -> u32 {
-        tier.pick(120, 2500)
+        tier.pick(600, 6000)
     }
     fn decode(&self, t: &mut Tape, _tier: Tier) -> Case {
         let mut cfg = GenCfg::horn();
